@@ -1086,9 +1086,9 @@ class Interp:
             cands = [(i, b) for i, b in cands if self.F.ty(i["self"])["k"] == "ref"]
         if len(cands) == 1:
             return self.call_body(cands[0][1], args, e)
-        if not cands and trait.endswith("DualNum"):
-            # provided method of the trait
-            tr = self.F.traits.get(trait) or self.F.traits.get("DualNum")
+        if not cands:
+            # provided method of the trait (no impl overrides the item: DualNum defaults, the blanket-implemented BesselDual)
+            tr = self.F.traits.get(trait) or (self.F.traits.get("DualNum") if trait.endswith("DualNum") else None)
             if tr:
                 for it in tr["items"]:
                     if it["name"] == name and it["did"] in self.F.bodies:
